@@ -16,6 +16,10 @@ Definition m_choose_index (n : N) : M N := fun s => choose_index n s.
 (* usize `+`: a panic on overflow in builds with overflow checks *)
 Definition m_add (a b : N) : M N := fun s => if M64 <=? a + b then Panic P_overflow else Ok (a + b, s).
 
+(* `v[i]` on a Vec: a panic when out of bounds *)
+Definition m_index {A : Type} (l : list A) (i : N) : M A :=
+  fun s => match nth_res l i with Ok x => Ok (x, s) | Panic p => Panic p end.
+
 (* derive(PartialOrd) on Version: the declaration order V0 < .. < V5, which is vnum's *)
 Definition version_ge (a b : version) : bool := vnum b <=? vnum a.
 Definition version_gt (a b : version) : bool := vnum b <? vnum a.
